@@ -3,7 +3,7 @@ from contracts import simulate
 from props.common import *  # noqa: F401,F403
 
 FUNCTIONS = [f"{G}:BaseGHE._simulate_detailed", f"{G}:GHE.simulate#hybrid-body", f"{G}:GHE.simulate#hourly-body-fresh",
-             f"{G}:GHE.simulate#hourly-body-after-another-simulation", f"{G}:BaseGHE.cost"]
+             f"{G}:GHE.simulate#hourly-body-after-another-simulation", f"{G}:GHE.simulate#hourly-body-array-loads", f"{G}:BaseGHE.cost"]
 NATIVE_FUNCTIONS = [f"{G}:BaseGHE._simulate_detailed", f"{G}:GHE.simulate"]
 NATIVE_CASES = {"quick": 60, "thorough": 3000}
 NATIVE_LIMIT_S = {"quick": 45, "thorough": 1500}
